@@ -16,7 +16,8 @@ def S(s):
 
 THEOREMS = ['C04_B_expand_exact', 'C04_B_tree_tidy', 'C04_collapse_is_expand', 'C04_collapse_total',
             'C04_collapse_explicit', 'C04_collapse_none_refuted', 'C04_A_sound', 'C04_A_sound_root', 'C04_A_added_ok',
-            'C04_A_sound_sentence', 'C04_A_complete_partial', 'C04_example']
+            'C04_A_sound_sentence', 'C04_A_complete_partial', 'C04_A_alg_erasure', 'C04_A_alg_families_sound',
+            'C04_A_alg_families_complete', 'C04_A_exact', 'C04_A_complete', 'C04_A_exact_gen', 'C04_A_example', 'C04_example']
 GEN_DEPS = []
 RULE = ('random ambiguous grammars (<=4 non-terminals, <=3 alternatives of length <=3, ?rules, _inlined rules, aliases, '
         '[optional] with placeholders, !keep-all rules, filtered anonymous tokens, EBNF * and +), three lexers (basic, '
@@ -28,7 +29,9 @@ RULE = ('random ambiguous grammars (<=4 non-terminals, <=3 alternatives of lengt
         'cyclic stream: termination + every tree is the shape of a derivation; ignore stream: grammars with one or several '
         '(also overlapping) %ignore terminals, half of them ambiguous at the root between differently shaped start '
         'alternatives (aliases, _rules, ?rules, filtered/kept tokens), inputs with leading/inner/trailing ignored text, '
-        'oracle at character level with ignored text allowed before every token and after the last one. '
+        'oracle at character level with ignored text allowed before every token and after the last one; '
+        'alg-families stream: every SymbolNode.add_family call of a parse (basic lexer) logged and compared as a set, '
+        'with the outcome, with the instrumented executable model evaluated in Coq. '
         'non-trivial = distinct (grammar, lexer, input) whose explicit tree contains at least one _ambig')
 TRUSTED_BASE = ['hand model Forest/ExplicitToTree.v of ForestToParseTree(resolve_ambiguity=False) and the rule callback chain, '
                 'tied by structural comparison on forests captured inside Lark.parse',
@@ -1280,12 +1283,13 @@ def correspond(ctx):
     cases, meta, defs = [], [], []
     k = 3 if ctx.widen else 1
     acases = ([], [], [])
-    run_stream(ctx, 'acyclic', ctx.scale(110, 1500) * k, False, 4, cases, meta, defs, acases)
-    run_stream(ctx, 'cyclic', ctx.scale(30, 300) * k, True, 3, cases, meta, defs, acases)
+    run_stream(ctx, 'acyclic', ctx.scale(80, 1500) * k, False, 4, cases, meta, defs, acases)
+    run_stream(ctx, 'cyclic', ctx.scale(25, 300) * k, True, 3, cases, meta, defs, acases)
     # %ignore: layer B and the derivation oracle only (the span bookkeeping of layer A has no notion of ignored text)
-    run_stream(ctx, 'ignore', ctx.scale(45, 600) * k, False, 3, cases, meta, defs, None, ignore=True)
+    run_stream(ctx, 'ignore', ctx.scale(40, 600) * k, False, 3, cases, meta, defs, None, ignore=True)
     exotic_f6(ctx, cases, meta, defs)
     check_layer_a(ctx, acases)
+    run_alg_families(ctx, ctx.scale(30, 400) * k)
     ctx.extra['layer_A_forests_checked'] = len(acases[0])
     # Coq: the model on the captured forests
     bad, errs = ctx.coq_bad_indices('c04', IMPORTS, 'check_case', cases, chunk=150,
@@ -1317,6 +1321,58 @@ def check_layer_a(ctx, acases):
                       False, 'a packed family of the captured forest is not of the form (rule, intermediate node of the same '
                              'rule and start, child matching the next symbol over adjacent spans); the derivation oracle '
                              'holds on this case')
+
+
+def run_alg_families(ctx, ngrammars):
+    """stream alg-families: the log of every SymbolNode.add_family call of a real parse (basic lexer, acyclic and
+    cyclic grammars, accepted and rejected inputs) against the log of the instrumented model, as sets, plus the outcome"""
+    from lark.exceptions import GrammarError
+    rng = ctx.rng
+    terms, imeta = [], []
+    made = attempts = 0
+    while made < ngrammars and attempts < ngrammars * 30:
+        attempts += 1
+        cyc = rng.random() < 0.25
+        opts = {'maybe_placeholders': True, 'keep_all_tokens': False}
+        g = gen_grammar(rng, 'basic', cyc)
+        try:
+            parser = with_timeout(lambda: make_parser(g, 'basic', **opts))
+        except (GrammarError, Hang):
+            continue
+        made += 1
+        for text in list(all_inputs('ab', 3)) + ['a' * 4, 'a' * 5, 'abab', 'aabb']:
+            try:
+                r = parse_logged(parser, text)
+            except Hang:
+                continue            # hangs are judged by the other streams
+            if r is None:
+                continue
+            code, log = r
+            term = coq_icase(parser, text, code, log)
+            if term is None or len(term) > 60000:
+                continue
+            ctx.count('alg-families', key=(g, text), nontrivial=len(log) >= 4 and code == 0,
+                      alg_outcome=('accept' if code == 0 else 'eof' if code == 1 else 'token'),
+                      add_family_calls=min(60, 10 * (len(log) // 10)))
+            terms.append(term)
+            imeta.append((g, text, opts, parser))
+    bad, errs = ctx.coq_bad_indices('c04i', IMPORTS_I, 'icheck', terms, chunk=200)
+    for e in errs:
+        ctx.violation('correspondence:coq-eval-alg', {'no_longer_checks': 'Coq evaluation of icheck', 'error': e}, False, e[:300])
+    for i in bad:
+        g, text, opts, parser = imeta[i]
+        # is this a failing input of the property itself?
+        cyclic = has_derivation_cycle(parser.rules)
+        obs = run_case(g, 'basic', text, parser=make_parser(g, 'basic', **opts))
+        verdict = property_verdict(parser, 'basic', text, obs, cyclic)
+        if verdict:
+            ctx.violation('property-oracle:%s' % verdict[0], witness(g, 'basic', text, opts), True, verdict[1])
+        else:
+            ctx.violation('correspondence:Forest/ExplicitAlgBuild.iearley_parse vs earley.py add_family log',
+                          dict(witness(g, 'basic', text, opts), no_longer_checks='add_family calls / outcome of the parse = those of the instrumented model'),
+                          False, 'the set of add_family calls (or the outcome) of lark differs from the instrumented model; '
+                                 'the derivation oracle holds on this case')
+    ctx.extra['alg_families_cases'] = len(terms)
 
 
 def collapse_verdict(tree):
